@@ -65,6 +65,16 @@ def gen_ops(h, rng, n_ops, types, ctxs, p_flush=0.12, p_compact=0.06, p_read=0.0
         else:
             t = rng.choice(types)
             k = h.new_k()
+            if rng.random() < 0.04:
+                # a STORE that must be rejected (blank context id / missing field); it must leave no trace - in
+                # particular no WAL entry that recovery trips over
+                bad = payload_for(h.types[t], k, rng)
+                if rng.random() < 0.5:
+                    h.store(t, rng.choice(["   ", ""]), bad, k=k, valid=False)
+                else:
+                    bad.pop(next(iter(bad)))
+                    h.store(t, rng.choice(ctxs), bad, k=k, valid=False)
+                continue
             h.store(t, rng.choice(ctxs), payload_for(h.types[t], k, rng), k=k)
 
 
@@ -83,7 +93,7 @@ class C01:
                   "thread; the model's must-set = STOREs answered 200 in a completed, quiesced step.")
     clauses = {"lost", "foreign-row", "duplicate-row", "wrong-value", "id-change", "count-vs-selection",
                "replay-lost", "replay-duplicate", "replay-foreign", "frames", "read-error", "hole", "panic",
-               "flush-error", "rejected-valid"}
+               "flush-error", "rejected-valid", "accepted-invalid"}
     budgets = {"quick": {"histories": 10, "crash_limit": 60}, "thorough": {"histories": 200, "crash_limit": 100000}}
 
     @staticmethod
@@ -1037,7 +1047,10 @@ class C13(Base):
                    "auth": {"bypass_auth": False, "initial_admin_user": ADMIN, "initial_admin_key": ADMIN_KEY,
                             "session_token_expiry_seconds": expiry}}
             h = H(seed, "C13", cfg, uid_salt=f"C13-{seed}-{i}")
-            h.life(end="shutdown")
+            # sub-second ticks: several auth mutations of one user share a wall-clock second (the auth log is
+            # replayed with latest-timestamp-wins at start-up)
+            tick = rng.choice([1000, 1000, 300, 0])
+            h.life(end="shutdown", tick_ms=tick)
             m = AuthModel()
             types = ["ta", "tb"]
             conn_state = {}     # conn -> {"user": u, "token_step": n, "token_wall": ms}
@@ -1120,6 +1133,13 @@ class C13(Base):
                 users = [u for u in names]
                 u = rng.choice(users)
                 bad = rng.choice([None, None, None, None, "wrongkey", "truncated", "othercmd"])
+                if x < 0.03 and not m.users[u]["roles"]:
+                    # grant and revoke back to back (same second when the clock ticks slowly)
+                    t = rng.choice(types)
+                    issue(ADMIN, f"GRANT READ,WRITE ON {t} TO {u}", {"kind": "authcmd", "need": "admin"}, form="inline")
+                    issue(ADMIN, f"REVOKE READ,WRITE ON {t} FROM {u}", {"kind": "authcmd", "need": "admin"}, form="inline")
+                    m.perms.pop((u, t), None)
+                    continue
                 if x < 0.06:
                     # revoke a key, then the user tries again
                     issue(ADMIN, f"REVOKE KEY {u}", {"kind": "authcmd", "need": "admin"}, form="inline")
@@ -1141,7 +1161,7 @@ class C13(Base):
                     continue
                 if x < 0.19:
                     h.end(rng.choice(["shutdown", "kill"]))
-                    h.life(end="shutdown")
+                    h.life(end="shutdown", tick_ms=tick)
                     conn_state.clear()
                     continue
                 t = rng.choice(types)
@@ -1507,8 +1527,10 @@ class C06(Base):
                     name, mut = rng.choice(INVALID_MUTATIONS)
                     mut(p)
                     h.store("e", rng.choice(ctxs), p, k=k, valid=False, vclass="invalid:" + name)
-                elif x < 0.95:
+                elif x < 0.93:
                     h.store("e", "", p, k=k, valid=False, vclass="invalid:empty-context")
+                elif x < 0.96:
+                    h.store("e", rng.choice(["   ", " ", "\t"]), p, k=k, valid=False, vclass="invalid:blank-context")
                 else:
                     h.store("undefined_type", rng.choice(ctxs), p, k=k, valid=False, vclass="invalid:undefined-type")
                 if rng.random() < 0.08:
